@@ -137,6 +137,7 @@ def run(ctx):
 
 
 def rule_tracked_dump(ctx, r):
-    """What TrackingBackend.close() saves is the in-memory id table (ids recorded by this invocation win over the file)."""
-    from .persist import rule_store_close
+    """What TrackingBackend.close() saves is the in-memory id table (ids recorded by this invocation win over the file), and the next start loads it."""
+    from .persist import rule_store_close, rule_store_load
     rule_store_close(ctx, r, which=("tracked jobs",))
+    rule_store_load(ctx, r, which=("tracked jobs",))
